@@ -39,6 +39,8 @@ def run(repo, chk):
     rule_filegen(repo, chk)
     rule_once(repo, chk)
     rule_shared(repo, chk)
+    rule_stream_guard(repo, chk)
+    rule_version(repo, chk)
 
 
 def rule_prepare(repo, chk):
@@ -411,3 +413,48 @@ def rule_shared(repo, chk):
                       'relies on the connection ending): obligations decided for C14.g and C14.b')
     n = chk.adopt('g', 'C14', repo, lambda o: (o.rule == 'C14.g' and o.discr.startswith('error-response:')) or (o.rule == 'C14.b' and o.discr.startswith('parser-dropped')))
     need(n >= 3, f'C15.g: only {n} shared obligations found')
+
+
+def rule_stream_guard(repo, chk):
+    chk.rule('C15.h', 'after the header block is written nothing can fail for a reason known beforehand: the streaming branch of _on_response steps the body with '
+                      'next() only if the body is an iterator (the stream flag may be stale: it is set by a file body and never reset)')
+    f = repo.func(WEB_HTTP, 'HTTP._on_response')
+    chk.touch(f)
+    g = f.cfg()
+    steps = [n for n in g.nodes if n.kind in ('stmt', 'test') and n.ast is not None and any(call_name(c) == 'next' and c.args and src(c.args[0]).endswith('.body') for c in pat.node_calls(n))]
+    need(steps, 'C15.h: _on_response never steps a streamed body')
+    is_iter = pat.test_edge(lambda tt, pol: pol == 'T' and (("'__next__'" in src(tt) and 'hasattr' in src(tt)) or ('isinstance' in src(tt) and ('Iterator' in src(tt) or 'GeneratorType' in src(tt)))))
+    for n in steps:
+        q = pat.guarded_by(g, n, is_iter)
+        chk.ob('h', f.ref, '`next(res.body)` is reached only when the body is known to be an iterator', q is None, loc(f, n.ast), path=pat.path_lines(q) if q else None,
+               discr='stream-only-iterators')
+
+
+def rule_version(repo, chk):
+    chk.rule('C15.i', 'a response is never written in an HTTP version the server does not speak: every answer produced by _on_read for a message whose request line '
+                      'was parsed has its protocol set from the server\'s version (clamped, or replaced when the major version differs) before it is fired')
+    f = repo.func(WEB_HTTP, 'HTTP._on_read')
+    chk.touch(f)
+    g = f.cfg()
+    answers = [(n, pat.event_ctor_name(e), e) for n in g.nodes if n.kind == 'stmt' for _c, _r, e in pat.fire_calls(n.ast)
+               if pat.event_ctor_name(e) in ('httperror', 'redirect', 'request') or (isinstance(e, ast.Name))]
+    mk_req = [n for n in g.nodes if n.kind == 'stmt' and isinstance(n.ast, ast.Assign) and isinstance(n.ast.value, ast.Call) and (call_name(n.ast.value) or '').endswith('Request')]
+    parsed = [n for n in mk_req if len(n.ast.value.args) >= 5 or any('get_version' in src(a) or src(a) == 'version' for a in n.ast.value.args)]
+    need(parsed, 'C15.i: _on_read never builds a Request from a parsed request line')
+    sets = [n for n in g.nodes if n.kind == 'stmt' and any(a == 'protocol' and ('self.protocol' in src(v) or 'sp' in Q.names_used(v)) for _r, a, v in pat.attr_store(n.ast))]
+    same_major = pat.test_edge(lambda tt, pol: (lambda fc: fc is not None and fc[1] in ('==',) and '[0]' in fc[0] and '[0]' in fc[2])(pat.compare_fact(tt, pol)))
+    n_ans = 0
+    seen_names = {}
+    for n, name, e in sorted(answers, key=lambda x: x[0].ast.lineno):
+        # only answers reachable from a Request built with the parsed version
+        if not any(Q.reaches(p_, n) for p_ in parsed):
+            continue
+        n_ans += 1
+        seen_names[name or src(e)] = seen_names.get(name or src(e), 0) + 1
+        bad = None
+        for p_ in parsed:
+            if Q.reaches(p_, n):
+                bad = bad or Q.reachable_without(g, n, start=p_, avoid_node=lambda m: m in sets, avoid_edge=same_major, exc=())
+        chk.ob('i', f.ref, f'before `{name or src(e)}` is fired the response protocol was set from the server\'s version (or the major versions are known to be equal)',
+               bad is None, loc(f, n.ast), path=pat.path_lines(bad) if bad else None, discr=f'server-version:{name or src(e)}#{seen_names[name or src(e)]}')
+    need(n_ans >= 3, f'C15.i: only {n_ans} answers found after a parsed request line')
